@@ -54,3 +54,49 @@ Qed.
 (* the accounting code of vm/vm.go has the modelled shape (regenerated on every run) *)
 Theorem C06_source_accounting_shape : GenVM.vm_unrecognised = [] /\ List.length GenVM.budget_events = 3%nat.
 Proof. split; [exact translator_recognised_vm|rewrite budget_accounting_shape; reflexivity]. Qed.
+
+(* ---- lines to add to Props/C06.v (GenVMSteps: the accounting statements of vm/vm.go, executed) ---- *)
+Require X.BC.VMSteps X.gen.GenVMSteps X.Bridge.BrVMSteps.
+
+(* the three allocating cases of the CURRENT vm/vm.go (size computation, overflow test, budget test,
+   `vm.memory += size`, with Go's 64-bit wrap-around), run on a model state, are the model's step
+   (alloc: refuse when the budget is reached, else count) *)
+Theorem C06_range_accounting_is_source :
+  forall fe cfg env C s l, fetch C (pc s) = Some (IRange, l) -> VMSteps.vm_rep_ok cfg s = true ->
+  VMSteps.case_agrees fe cfg env C GenVMSteps.vm_src IRange l s.
+Proof. exact BrVMSteps.case_OpRange_is_step. Qed.
+Print Assumptions C06_range_accounting_is_source.
+
+Theorem C06_array_accounting_is_source :
+  forall fe cfg env C s l, fetch C (pc s) = Some (IArray, l) -> VMSteps.vm_rep_ok cfg s = true ->
+  VMSteps.vm_in_scope IArray s = true -> VMSteps.case_agrees fe cfg env C GenVMSteps.vm_src IArray l s.
+Proof. exact BrVMSteps.case_OpArray_is_step. Qed.
+Print Assumptions C06_array_accounting_is_source.
+
+Theorem C06_map_accounting_is_source :
+  forall fe cfg env C s l, fetch C (pc s) = Some (IMap, l) -> VMSteps.vm_rep_ok cfg s = true ->
+  VMSteps.vm_in_scope IMap s = true -> VMSteps.case_agrees fe cfg env C GenVMSteps.vm_src IMap l s.
+Proof. exact BrVMSteps.case_OpMap_is_step. Qed.
+Print Assumptions C06_map_accounting_is_source.
+
+(* outside vm_in_scope the model and the Go text part: OpMap with a NEGATIVE size builds an empty map in Go
+   and SUBTRACTS from vm.memory (make(map) takes no size); the model refuses the instruction.  No compiled
+   program contains it (the size is len(node.Pairs)). *)
+Theorem C06_map_negative_size_in_go :
+  VMSteps.vm_rep_ok BrVMSteps.w_cfg BrVMSteps.w_mapneg_state = true /\
+  VMSteps.vm_in_scope_at BrVMSteps.w_mapneg_code BrVMSteps.w_mapneg_state = false /\
+  VMSteps.interp_case BrVMSteps.w_fe BrVMSteps.w_cfg VNil [] VMSteps.GOpcode
+     (VMSteps.case_of GenVMSteps.vm_src "OpMap") VMSteps.VwNone noloc BrVMSteps.w_mapneg_state
+    = Some (Next (mkSt 1 [VMap TString TIface []] [] (mkRS 4 []))) /\
+  step BrVMSteps.w_fe BrVMSteps.w_cfg VNil BrVMSteps.w_mapneg_code BrVMSteps.w_mapneg_state
+    = Crash EOther noloc (mkRS 5 []).
+Proof. exact BrVMSteps.map_negative_size_in_go. Qed.
+Print Assumptions C06_map_negative_size_in_go.
+
+Example C06_vmsteps_nonvacuous :
+  let s := mkSt 0 [vint 2; VBool true; VNil] [] (mkRS 7 []) in
+  fetch [(IArray, noloc)] (pc s) = Some (IArray, noloc) /\
+  VMSteps.vm_rep_ok BrVMSteps.w_cfg s = true /\ VMSteps.vm_in_scope IArray s = true /\
+  step BrVMSteps.w_fe BrVMSteps.w_cfg VNil [(IArray, noloc)] s
+    = Next (mkSt 1 [VArr TIface [VNil; VBool true]] [] (mkRS 9 [])).
+Proof. vm_compute. repeat split; reflexivity. Qed.
